@@ -508,6 +508,48 @@ func c18Storage(run *core.Run, p *node.Node, sentinelOwners []*wallet.KeyPair) {
 			rep("pillar.checkNameAvailability", fmt.Sprintf("an unused name is reported as taken (%v)", err))
 		}
 	}
+	// weights are quantities of the confirmed ledger (the consensus computes them from the frontier momentum): with an unconfirmed
+	// send of every delegator in the pool, the weight a query reports for a delegation is still the delegator's confirmed balance,
+	// and the pillars' weights are what they were
+	weightsOf := func() string {
+		l, err := pa.GetAll(0, 1024)
+		if err != nil {
+			return "error: " + err.Error()
+		}
+		out := ""
+		for _, x := range l.List {
+			out += fmt.Sprintf("%s=%v;", x.Name, x.Weight)
+		}
+		return out
+	}
+	wBefore := weightsOf()
+	pooled := 0
+	for _, k := range []*wallet.KeyPair{g.User1, g.User2, g.User3, g.User4, g.User5} {
+		if _, err := p.Submit(&nom.AccountBlock{BlockType: nom.BlockTypeUserSend, Address: k.Address, ToAddress: g.Pillar8.Address, TokenStandard: types.ZnnTokenStandard, Amount: big.NewInt(100000000)}, k); err == nil {
+			pooled++
+		}
+	}
+	if pooled > 0 {
+		for _, k := range []*wallet.KeyPair{g.User1, g.User2, g.User3, g.User4, g.User5} {
+			d, err := pa.GetDelegatedPillar(k.Address)
+			if err != nil || d == nil {
+				continue
+			}
+			conf, _ := p.Chain.GetFrontierMomentumStore().GetAccountStore(k.Address).GetBalance(types.ZnnTokenStandard)
+			if conf == nil {
+				conf = big.NewInt(0)
+			}
+			if d.Balance == nil || d.Balance.Cmp(conf) != 0 {
+				rep("pillar.getDelegatedPillar", fmt.Sprintf("%v delegates to %s: the query reports weight %v while the ledger at the frontier momentum holds %v ZNN for the account (an unconfirmed send of the account is in the pool)", k.Address, d.Name, d.Balance, conf))
+			}
+			compared++
+		}
+		if wAfter := weightsOf(); wAfter != wBefore {
+			rep("pillar.getAll-weights", fmt.Sprintf("the pillars' weights change with unconfirmed blocks in the pool and no new momentum: %s, before: %s", wAfter, wBefore))
+		}
+		compared++
+		core.Must(p.ProduceN(2))
+	}
 	run.Traces += int64(compared)
 	run.Set("embedded_queries_compared_with_storage", fmt.Sprintf("%d answers (stake, fusion and liquidity-stake entries and totals, fused amount by beneficiary, sentinel status, deposited QSR of %d accounts; pillar list, names) compared with the entries the lab reads from the contracts' storage by its own iteration (%d entries)", compared, len(accounts), len(entries)))
 }
